@@ -198,6 +198,12 @@ def enabled(ref, tier):
                     ev.append(["var_rename", key, vd.index(d), fresh[0]])
                 if alt not in lab and lab and (tier != "quick" or key == sorted(ref.vars)[-1]):
                     ev.append(["var_relabel", key, vd.index(d), 0, alt])
+    # relabel one axis with the label ARRAY of another axis of the same length (the very ndarray object): afterwards the two axes carry equal
+    # labels but must stay independent
+    pairs = [(i, j) for i in range(len(dims)) for j in range(len(dims)) if i != j and len(ref.axes[i][1]) == len(ref.axes[j][1]) and ref.axes[i][1]
+             and not same_list(ref.axes[i][1], ref.axes[j][1])]
+    for i, j in (pairs[:1] if tier == "quick" else pairs):
+        ev.append(["set_axis_from", i, j])
     if len(dims) >= 1 and len(fresh) >= len(dims):
         ev.append(["dims", fresh[:len(dims)]])
     if len(dims) >= 2:      # permutations of the names already in use (swap / rotation): must land on the right axes
@@ -260,6 +266,8 @@ def apply_impl(ds, ev, made=None):
     elif k == "axes_setitem_pos":
         old = ds.axes[ev[1]]
         ds.axes[ev[1]] = Axis(np.array(_relabeled(py(old.values), ev[2]), dtype=object if isinstance(ev[2], str) else None), old.name)
+    elif k == "set_axis_from":
+        ds.set_axis(ds.axes[ev[2]].values, axis=ev[1])
     elif k == "axes_setitem_rename":
         old = ds.axes[ev[1]]
         ds.axes[ev[1]] = Axis(np.array(_relabeled(py(old.values), ev[2]), dtype=object if isinstance(ev[2], str) else None), ev[3])
@@ -305,6 +313,8 @@ def apply_ref(ref, ev):
     elif k in ("set_axis_dict", "setattr_dim", "axes_setitem_name"):
         a = ref.ax(ev[1])
         a[1] = _relabeled(a[1], ev[2])
+    elif k == "set_axis_from":
+        ref.axes[ev[1]][1] = list(ref.axes[ev[2]][1])
     elif k == "axes_setitem_rename":
         a = ref.ax(ev[1]) if isinstance(ev[1], str) else ref.axes[ev[1]]
         a[1] = _relabeled(a[1], ev[2])
